@@ -26,6 +26,9 @@ CONSTANTS Zones,        \* menu of zone argument tuples (wire shape [tr, ty, lp,
           LocalTimes,   \* menu of field records [y, mo, d, h, mi, s]
           Files,        \* menu of byte sequences offered to the decoder
           TzValues,     \* menu of TZ values (byte sequences)
+          Rules,        \* menu of DST rule argument records [std, dst, sd, st, ed, et], accepted and refused ones
+          TzStrings,    \* menu of TZ descriptions (byte sequences), sentences and non-sentences
+          Nanos,        \* menu of wide total-nanosecond counts
           Dirs,         \* the configured zoneinfo directories
           Vfs,          \* the virtual file system: sequence of <<path, content>>
           MaxSteps
@@ -106,15 +109,53 @@ RenderDt == /\ Tick /\ dts # {} /\ \E dt \in dts :
               /\ last' = [op |-> "render", a |-> dt, text |-> Render(dt.y, dt.mo, dt.d, dt.h, dt.mi, dt.s, dt.ns, dt.off)]
               /\ UNCHANGED <<zone, buf, reads, dts>>
 
-Next == MakeZone \/ DecodeFile \/ ResolveTz \/ LookupType \/ Localtime1 \/ Search \/ SearchN \/ ProjectDt \/ RenderDt
+\* ---- rules and descriptions (C09, C11): a rule, once accepted, governs a rule-only zone ----
+RuleZoneOf(rule) == MkZone([tr |-> <<>>, ty |-> IF rule.k = "fixed" THEN <<rule.t>> ELSE <<rule.std, rule.dst>>, lp |-> <<>>, rule |-> rule])
+MakeRule == /\ Tick /\ \E ra \in Rules :
+              LET rule == [k |-> "alt", std |-> ra.std, dst |-> ra.dst, sd |-> ra.sd, st |-> ra.st, ed |-> ra.ed, et |-> ra.et]
+                  v == RuleVerdict(rule) IN
+              /\ zone' = IF v.ok # {} THEN RuleZoneOf(rule) ELSE zone
+              /\ buf' = IF v.ok # {} THEN EmptyBuf ELSE buf
+              /\ last' = [op |-> "rule", a |-> ra, accepted |-> v.ok # {}, errs |-> v.err]
+              /\ UNCHANGED <<reads, dts>>
+ParseDescription ==
+  /\ Tick /\ \E str \in TzStrings, ext \in BOOLEAN :
+              LET p == ParseTz(TrimWs(str), ext) IN
+              /\ zone' = IF p.ok THEN RuleZoneOf(p.rule) ELSE zone
+              /\ buf' = IF p.ok THEN EmptyBuf ELSE buf
+              /\ last' = [op |-> "tzstring", a |-> str, ext |-> ext, accepted |-> p.ok]
+              /\ UNCHANGED <<reads, dts>>
+\* ---- UTC date-times (C01, C02, C16) and comparison (C14) ----
+GmtimeCall == /\ Tick /\ \E uw \in Instants :
+                \E r \in Outcomes(FromLocal(WToCDS(uw), 0, UtcType)) :
+                  /\ last' = [op |-> "gmtime", a |-> uw, r |-> r]
+                  /\ dts' = IF "ok" \in DOMAIN r THEN dts \cup {r.ok} ELSE dts
+                  /\ UNCHANGED <<zone, buf, reads>>
+TimegmCall == /\ Tick /\ \E f \in LocalTimes :
+                \E r \in Outcomes(NewDt(f.y, f.mo, f.d, f.h, f.mi, f.s, 0, UtcType)) :
+                  /\ last' = [op |-> "timegm", a |-> f, r |-> r]
+                  /\ dts' = IF "ok" \in DOMAIN r THEN dts \cup {r.ok} ELSE dts
+                  /\ UNCHANGED <<zone, buf, reads>>
+FromNanosCall ==
+  /\ Tick /\ \E nn \in Nanos :
+                LET sp == Split(nn) IN
+                \E r \in Outcomes(IF WFitsI64(sp.q) THEN Localtime(zone, WToCDS(sp.q), sp.r) ELSE OutErr("OutOfRange")) :
+                  /\ last' = [op |-> "fromnanos", a |-> nn, r |-> r]
+                  /\ dts' = IF "ok" \in DOMAIN r THEN dts \cup {r.ok} ELSE dts
+                  /\ UNCHANGED <<zone, buf, reads>>
+CompareDts == /\ Tick /\ \E x \in dts, w \in dts :
+                /\ last' = [op |-> "cmp", a |-> x, b |-> w, ord |-> InstCmp(x.u, x.ns, w.u, w.ns)]
+                /\ UNCHANGED <<zone, buf, reads, dts>>
+
+Next == MakeRule \/ ParseDescription \/ GmtimeCall \/ TimegmCall \/ FromNanosCall \/ CompareDts \/ MakeZone \/ DecodeFile \/ ResolveTz \/ LookupType \/ Localtime1 \/ Search \/ SearchN \/ ProjectDt \/ RenderDt
 Spec == Init /\ [][Next]_vars
 
 \* ============================== properties ================================
 \* C14: every date-time the session has been handed denotes one instant and its fields match it
 AllDtInv == \A dt \in dts : DtInv(dt)
 \* C15 / frame conditions: only constructors change the zone, only find_n changes the buffer, only resolution issues reads
-FrameOK == [][ /\ (zone' # zone => last'.op \in {"zone", "tzif", "resolve"})
-               /\ (buf' # buf => last'.op \in {"findn", "zone", "tzif"})
+FrameOK == [][ /\ (zone' # zone => last'.op \in {"zone", "tzif", "resolve", "rule", "tzstring"})
+               /\ (buf' # buf => last'.op \in {"findn", "zone", "tzif", "rule", "tzstring"})
                /\ (reads' # reads => last'.op = "resolve") ]_vars
 \* C17: the buffer frame
 BufFrame == [][ last'.op = "findn" =>
@@ -137,5 +178,11 @@ RenderOK == last.op = "render" =>
 ReadsOK == last.op = "resolve" => \A i \in 1..(Len(reads) - 1) : ~IsReadable(Vfs, reads[i])
 \* C13: a zone the session holds is always well formed
 ZoneWellFormed == ZoneVerdict(zone) \subseteq {"ok-or"} \/ "ok-or" \in ZoneVerdict(zone)
-Invariants == AllDtInv /\ RoundTripOK /\ SearchOK /\ RenderOK /\ ReadsOK /\ ZoneWellFormed
+\* C14: the same instant seen from two zones compares equal; ordering follows (instant, ns)
+CmpOK == last.op = "cmp" => ((last.ord = 0) <=> (last.a.u = last.b.u /\ last.a.ns = last.b.ns))
+\* C16: a date-time built from a nanosecond count denotes exactly that count
+NanosOK == (last.op = "fromnanos" /\ "ok" \in DOMAIN last.r) => last.r.ok.tn = last.a
+\* C09: descriptions that need RFC 8536 extensions are refused without them
+ExtOK == (last.op = "tzstring" /\ ~last.ext /\ last.accepted) => ParseTz(TrimWs(last.a), TRUE).ok
+Invariants == CmpOK /\ NanosOK /\ ExtOK /\ AllDtInv /\ RoundTripOK /\ SearchOK /\ RenderOK /\ ReadsOK /\ ZoneWellFormed
 =============================================================================
